@@ -11,7 +11,9 @@ import time
 from common import CACHE, REPO, cargo_env
 
 MIR_DIR = os.path.join(CACHE, 'mir')
-MIR_TARGET = os.path.join(CACHE, 'mir-target')
+MIR_TARGET = os.environ.get('VERIF_MIR_TARGET') or os.path.join(CACHE, 'mir-target')
+if os.environ.get('VERIF_MIR_DIR'):
+    MIR_DIR = os.environ['VERIF_MIR_DIR']
 
 
 def dump_mir(crate, kind='lib', name=None, timeout=2400):
@@ -25,8 +27,14 @@ def dump_mir(crate, kind='lib', name=None, timeout=2400):
     cmd = ['cargo', '+nightly', 'rustc'] + sel + ['--target-dir', MIR_TARGET, '--', '-Zunpretty=mir', '-C', 'overflow-checks=on']
     t0 = time.time()
     env = cargo_env({'CARGO_INCREMENTAL': '0'})
-    # touching a file in /repo is not allowed to leave traces: use a throw-away cfg flag that changes the fingerprint instead
-    env['RUSTFLAGS'] = '--cfg verif_mir_%d' % int(t0)
+    # touching a file in /repo is not allowed to leave traces: forget cargo's fingerprint of this one crate instead, so that
+    # rustc runs again for it (and only for it: the dependencies stay cached)
+    import glob
+    import shutil
+    for d in glob.glob(os.path.join(MIR_TARGET, 'debug', '.fingerprint', '%s-*' % crate)) + \
+            glob.glob(os.path.join(MIR_TARGET, 'debug', '.fingerprint', '%s-*' % crate.replace('-', '_'))):
+        shutil.rmtree(d, ignore_errors=True)
+    env['RUSTFLAGS'] = '--cfg verif_mir'
     try:
         p = subprocess.run(cmd, cwd=src, env=env, stdout=subprocess.PIPE, stderr=subprocess.PIPE, timeout=timeout)
     except subprocess.TimeoutExpired:
